@@ -472,14 +472,14 @@ func checkValidatedParamWrites(w *World, r *Report, rule string, keep func(*ssa.
 				continue
 			}
 			construct := funcName(f) + " : store.Set(ParamsKey)"
-			args := s.Args()
-			if len(args) < 2 {
+			sval := cg.StoreValOf(s)
+			if sval == nil {
 				r.Unk(rule, construct, w.Pos(s.Instr.Pos()), "unexpected Set signature")
 				continue
 			}
 			// the value: result of a Marshal call on &p
 			var marsh *ssa.Call
-			o := w.Tracer().Origins(args[1])
+			o := w.Tracer().Origins(sval)
 			for c := range o.Calls {
 				n := callName(c.Common())
 				if hasSuffixAny(n, ".MustMarshal", ".Marshal", ".MustMarshalJSON", ".MarshalJSON") {
